@@ -199,6 +199,8 @@ def check(run):
                               'iteration on every path', 1)
     R.rule('C16.onebackoff', 'after the connection loop every path to the next attempt or to the exit yields '
                              'exactly one BackOff(d), and d is the value passed to exit_event.wait', 2)
+    from .common import event_fields as _event_fields
+    _event_fields(R, 'C16.onebackoff', ['BackOff'])      # BackOff reports the delay that is waited
     R.rule('C16.bounds', 'symbolic interval of the delay: lower bound min_wait, upper bound '
                          'min_wait + min(max_wait - min_wait, 2**retries)', 2)
     R.rule('C16.growth', 'retries: initialised to 0, +1 exactly once per attempt outside the event loop, reset to '
